@@ -153,6 +153,13 @@ def run(rng, tier, model_ok):
     for a, b in extra:
         if add(a):
             add(b)
+    # a temperature reading as an operand (alone it enters as kelvin, also under a prefix, on either side)
+    from props import c09
+    for q, o in c09.offset_products(rng, tier):
+        if "^" in q or "°C*" in q or "*°C" in q or "°F/" in q or "/°C" in q or "°F*" in q:
+            continue                       # the refusals are C09's
+        items.append((q, o))
+        stats["temperature_operands"] = stats.get("temperature_operands", 0) + 1
     corpus = vlib.load_corpus("C04")
     items = [(q, None) for q in corpus] + items
     replies, failures, mismatches, ncoq = pipeline.run_queries(items, "C04", rng, tier, model_ok, budget_quick=1200)
